@@ -34,6 +34,9 @@ MANUAL = {
                  "            return value, False\n")],
     "6e9352a": [("stix2/utils.py", "            if ts.tzinfo is None or ts.tzinfo.utcoffset(ts) is None:\n", "            if False:\n"),
                 ("stix2/utils.py", "                ts = ts.astimezone(pytz.utc)\n        else:\n", "                pass\n        else:\n")],
+    "1931542": [("stix2/base.py", "        try:\n            self._check_object_constraints()\n        except RecursionError:\n            raise ValueError(\n                \"%s content is nested too deeply\" % cls.__name__,\n            ) from None\n",
+                 "        self._check_object_constraints()\n"),
+                ("stix2/v21/base.py", "            except RecursionError:\n                raise ValueError(\n                    \"%s content is nested too deeply\" % self.__class__.__name__,\n                ) from None\n", "")],
     "27b0e09": [("stix2/markings/utils.py", "    if isinstance(value, collections.abc.Mapping):\n\n        for item in iterpath(value, path):",
                  "    if isinstance(value, dict):\n\n        for item in iterpath(value, path):")],
 }
